@@ -137,6 +137,17 @@ def points(tier):
                     for cats in (0, 1):
                         pts.append({"d": "D1", "type": t, "width": w, "v": 1 if pv == "v1" else 2,
                                     "enc": "RLE_DICTIONARY", "cats": cats, "tier": tier, "codec": codec, "pv": pv})
+    # D8: dictionaries that fill their index width (indices >= 128 at width 8, >= 32768 at width 16)
+    for t in ("int64", "utf8"):
+        for dsize, widths in ((129, (8,)), (200, (8, 16, 32)), (256, (8,)), (257, (9,)), (40000, (16,))):
+            if dsize == 40000 and (tier != "thorough" and t != "int64"):
+                continue
+            for w in widths:
+                for v in (1, 2):
+                    for cats in (0, 1):
+                        if cats and dsize > 256:
+                            continue
+                        pts.append({"d": "D8", "type": t, "dsize": dsize, "width": w, "v": v, "cats": cats})
     cb = list(combos()) if tier == "thorough" else QUICK_COMBOS
     codecs = [0, 1, 2, 6, 7, 4] if tier == "thorough" else [0, 1, 6]
     for t in cb:
@@ -171,7 +182,7 @@ def explore(run, tier):
 
 def crash_sig(point, res):
     s = {"d": point["d"], "symptom": res["outcome"]}
-    for k in ("type", "width", "v", "enc", "longval", "count", "codec", "pv", "kind", "cats"):
+    for k in ("type", "width", "v", "enc", "longval", "count", "codec", "pv", "kind", "cats", "dsize"):
         if k in point:
             s[k] = point[k]
     return s
@@ -189,7 +200,7 @@ class Cell:
     def bad(self, symptom, detail, **extra):
         s = {"d": self.point["d"], "symptom": symptom}
         s.update(getattr(self, "ctx", {}))
-        for k in ("type", "width", "v", "enc", "longval", "count", "codec", "pv", "kind", "cats"):
+        for k in ("type", "width", "v", "enc", "longval", "count", "codec", "pv", "kind", "cats", "dsize"):
             if k in self.point:
                 s[k] = self.point[k]
         s.update(extra)
@@ -393,6 +404,37 @@ def run_D1(c, p):
                         continue
                     compare(c, df, "c", exp, combo, what + (" categories" if cats else ""), cat=bool(cats),
                             has_null=any(mask))
+
+
+def run_D8(c, p):
+    from mc.specpq import writer as W
+    cb = combos()
+    combo = cb[p["type"]]
+    dsize, w, ver = p["dsize"], p["width"], p["v"]
+    if p["type"] == "int64":
+        dictionary = [1000 * i + 7 for i in range(dsize)]
+    else:
+        dictionary = [("v%05d" % i).encode() for i in range(dsize)]
+    order = [(i * 7919 + 3) % dsize for i in range(dsize)]       # every index once, not in order
+    for rep, pat in (("required", "none"), ("optional", "alt")):
+        n = dsize
+        mask = nullmask(pat, n)
+        vals = [None if mask[i] else dictionary[order[i]] for i in range(n)]
+        for prog in ("bp", "auto", "rle"):
+            col = _col("c", combo, rep)
+            chunk = {"rows": vals, "dictionary": dictionary, "codec": 0,
+                     "pages": [{"n": n, "enc": "RLE_DICTIONARY", "v": ver, "idx_width": w, "idx_prog": prog}]}
+            data = W.write_file({"created_by": CREATED_BY, "columns": [col], "row_groups": [{"c": chunk}]})
+            what = "D8 dict=%d width=%d %s nulls=%s prog=%s" % (dsize, w, rep, pat, prog)
+            c.ctx = {"nulls": pat if rep == "optional" else "required", "prog": prog}
+            if prog == "bp" and rep == "required":
+                _selfcheck(c, data, "c", vals, what)
+            exp = expected(combo, vals, p["type"])
+            df = _try_read(c, data, what, ["c"] if p["cats"] else None)
+            c.files += 1
+            if df is None:
+                continue
+            compare(c, df, "c", exp, combo, what, cat=bool(p["cats"]), has_null=any(mask))
 
 
 def _splits(n, maxpages=3):
